@@ -107,6 +107,14 @@ Proof.
   cbn [map combine swap fst snd]. f_equal. apply IH.
 Qed.
 
+Lemma cnt_count v a : cnt v a = count_occ Z.eq_dec a v.
+Proof.
+  induction a as [|x a IH]; [reflexivity|]. cbn [cnt].
+  destruct (Z.eqb_spec x v) as [->|NE].
+  - rewrite count_occ_cons_eq by reflexivity. rewrite IH. reflexivity.
+  - rewrite count_occ_cons_neq by exact NE. exact IH.
+Qed.
+
 Lemma strata_sum (G : stratum -> R) X Y UX UY :
   rsum G (map (fun p => stratum_of X Y UY (fst p) (snd p))
               (filter not_singleton (combine UX (map (fun v => cnt v X) UX))))
@@ -174,11 +182,11 @@ Section Refine.
     = Hcond_c P (uvals X) (uvals Y).
   Proof.
     rewrite strata_sum, Hcond_c_unfold, P_fst, P_len.
-    apply rsum_ext_in. intros v _. unfold cnt at 1.
+    apply rsum_ext_in. intros v _. rewrite (cnt_count v X).
     destruct (Nat.eqb (count_occ Z.eq_dec X v) 1); [reflexivity|].
     unfold stratum_of. cbn [s_cnt s_real].
-    rewrite (cond_counts (length X) (cnt v X) (fun c => cnt c (gather Y (where_eq 0 v X))) (uvals Y)).
-    apply rsum_ext_in. intros c _. unfold cnt, gather.
+    rewrite (cond_counts (length X) (count_occ Z.eq_dec X v) (fun c => cnt c (gather Y (where_eq 0 v X))) (uvals Y)).
+    apply rsum_ext_in. intros c _. rewrite cnt_count. unfold gather.
     rewrite (stratum_counts X Y v c) by (symmetry; exact Hlen). reflexivity.
   Qed.
 
@@ -189,12 +197,12 @@ Section Refine.
     = Hcond_c Ps (uvals X) (uvals Y).
   Proof.
     rewrite strata_sum, Hcond_c_unfold, Ps_fst, Ps_len.
-    apply rsum_ext_in. intros v _. unfold cnt at 1.
+    apply rsum_ext_in. intros v _. rewrite (cnt_count v X).
     destruct (Nat.eqb (count_occ Z.eq_dec X v) 1); [reflexivity|].
     unfold stratum_of. cbn [s_cnt s_spoof].
-    rewrite (cond_counts (length X) (cnt v X)
-               (fun c => cnt c (map (fun el => nth ((el + cnt v X) mod length Y) Y 0%Z) (where_eq 0 v X))) (uvals Y)).
-    apply rsum_ext_in. intros c _. unfold cnt.
+    rewrite (cond_counts (length X) (count_occ Z.eq_dec X v)
+               (fun c => cnt c (map (fun el => nth ((el + count_occ Z.eq_dec X v) mod length Y) Y 0%Z) (where_eq 0 v X))) (uvals Y)).
+    apply rsum_ext_in. intros c _. rewrite cnt_count.
     pose proof (spoof_counts X Y v c (eq_sym Hlen)) as E. cbv zeta in E. rewrite E. reflexivity.
   Qed.
 
@@ -202,7 +210,7 @@ Section Refine.
     full_entropy (Z.of_nat (length X)) (map Z.of_nat (map (fun v => cnt v Y) (uvals Y))) = Hfull_c P (uvals Y).
   Proof.
     unfold full_entropy, Hfull_c, cY. cbv zeta. rewrite P_snd, P_len, !rsum_map.
-    apply rsum_ext_in. intros c _. rewrite <- !INR_IZR_INZ. reflexivity.
+    apply rsum_ext_in. intros c _. rewrite <- !INR_IZR_INZ, cnt_count. reflexivity.
   Qed.
 
   Lemma eval_core_false : eval_R (core Y X false) = Hfull_c P (uvals Y) - Hcond_c P (uvals X) (uvals Y).
